@@ -279,6 +279,8 @@ class GatherMixin:
             return base.mask
         if isinstance(base, WhereComp) and n.attr == "mask":
             return base.w.mask
+        if isinstance(base, WhereComp) and n.attr == "size":
+            return self.selection_count(base.w, st)
         if isinstance(base, Gath):
             return SFunc(name="gather." + n.attr, handler=("method", base))
         return super().e_Attribute(ast.Attribute(value=_Lit(base), attr=n.attr, ctx=n.ctx, lineno=n.lineno, col_offset=0), st)
@@ -376,6 +378,51 @@ class GatherMixin:
                         out.append(to_int(x))
                 return SList(out, "i")
         return super().m_astype(recv, args, kw, st, n)
+
+    def selection_count(self, w, st):
+        """len of an np.where component: N >= 0 and (N == 0 iff no position is selected)"""
+        cache = getattr(self, "_count_cache", None)
+        if cache is None:
+            cache = self._count_cache = {}
+        if id(w) in cache:
+            return cache[id(w)][1]
+        N = fresh_int("nsel")
+        q = [z3.Int(fresh_name("cq")) for _ in w.mask.shape]
+        inr = [z3.And(x >= 0, x < zi(s_)) for x, s_ in zip(q, w.mask.shape)]
+        st.assume(z3.And(N >= 0, (N == 0) == z3.ForAll(q, z3.Implies(z3.And(*inr), z3.Not(zb(as_bool(w.mask.get(q, st))))))))
+        cache[id(w)] = (w, N)
+        return N
+
+    def m_update(self, recv, args, kw, st, n):
+        from .lazy import _Map
+        if isinstance(recv, _Map) and recv.name.endswith(".attrs") and args and isinstance(args[0], dict):
+            for k, v in args[0].items():
+                recv.d[k] = v
+            return None
+        raise Unsupported(".update on %r (line %d)" % (type(recv), n.lineno))
+
+    # ------------------------------------------------------------ raster files (assumed, pure)
+    def b_pandora_img_tools_rasterio_open(self, args, kw, st, n):
+        """rasterio.open(path): an opaque reader; reader.read(band, window=w) is an ASSUMED pure function of (path, band, window)
+        returning a 2-D integer array (its size is whatever the contract's precondition says)"""
+        return ("rasterfile", args[0])
+
+    b_rasterio_open = b_pandora_img_tools_rasterio_open
+
+    def m_read(self, recv, args, kw, st, n):
+        if not (isinstance(recv, tuple) and recv and isinstance(recv[0], str) and recv[0] == "rasterfile"):
+            raise Unsupported(".read on %r (line %d)" % (type(recv), n.lineno))
+        key = ("read", self.content_key(recv[1], st), tuple(self.content_key(a, st) for a in args),
+               self.content_key(kw.get("window"), st))
+        cache = getattr(self, "_read_cache", None)
+        if cache is None:
+            cache = self._read_cache = {}
+        if key not in cache:
+            from .state import fresh_of_type
+            a = fresh_of_type(st, "raster_read", "i16[:,:]", None)
+            self.local_cells.add(a.cell)
+            cache[key] = a
+        return cache[key]
 
     def provable(self, cond, st, ms=2000):
         c = simp_bool(cond)
@@ -639,10 +686,32 @@ class GatherMixin:
         return super().b_numpy_full(args, kw, st, n)
 
     # ------------------------------------------------------------ xarray constructors
+    def materialize(self, a, st, name="m"):
+        """a computed (lazy) array becomes a heap array holding its values now -- needed once it can be stored into"""
+        if not (isinstance(a, LArr) and a.base is None):
+            return a
+        from .state import alloc_array
+        dt = a.dt if a.dt in ("f", "i", "b", "r") or a.dt.startswith("u") else "i"
+        arr = alloc_array(st, name, dt, list(a.shape))
+        arr.name = name
+        self.local_cells.add(arr.cell)
+        q = [z3.Int("mq%d!" % k) for k in range(len(a.shape))]
+        v = a.get(q, st)
+        h = st.heap[arr.cell]
+        if dt == "f":
+            fv = fl.F(_num(v)) if not isinstance(v, SFloat) else v
+            st.assume(z3.ForAll(q, zsel(h[0], q) == fv.k, patterns=[zsel(h[0], q)]))
+            st.assume(z3.ForAll(q, zsel(h[1], q) == fv.v, patterns=[zsel(h[1], q)]))
+        else:
+            st.assume(z3.ForAll(q, zsel(h, q) == coerce_scalar(v, dt), patterns=[zsel(h, q)]))
+        return arr
+
     def b_xarray_DataArray(self, args, kw, st, n):
-        data = args[0]
+        data = args[0] if args else kw.get("data")
         if not (is_arr(data) or isinstance(data, SList)):
             raise Unsupported("xr.DataArray of %r (line %d)" % (type(data), n.lineno))
+        if isinstance(data, LArr):
+            data = self.materialize(data, st, "dataarray")
         return SData(data, dims=kw.get("dims"))
 
     b_xr_DataArray = b_xarray_DataArray
